@@ -123,3 +123,14 @@ CHECKS["C01"] = dict(
          "for byte with reference encoders.",
     note="Trusts engine/ref/msp430enc.py and engine/ref/rv32i.py (only literal operands are posed; unsigned spellings of a field are not expected "
          "to be rejected); statements emitting alignment padding or non-contiguous bytes are not judged.")
+
+CHECKS["C06"] = dict(
+    level="model_checking", design_ref="DESIGN.md 4/C06",
+    technique="exhaustive enumeration of (cpu, instruction template, operand slot) x boundary values through the real assembler; collision oracle "
+              "(two accepted values, same encoding, not congruent modulo the width of the accepted range)",
+    text="For every instruction template of every CPU (the comparison corpus used as input; decoder-derived shapes for CPUs without one) and every "
+         "numeric or register-number slot in it, every value of the boundary set (0, +-2^k+-1 for k <= 31, the same distances around the "
+         "instruction's own address, register numbers 0-34/63/64/127/128/255/256; negative values also in their unsigned 32-bit spelling) is "
+         "assembled; two accepted values that are not the signed/unsigned spellings of one field value must produce different bytes.",
+    note="Nothing is asserted about which values must be accepted; the boundary set is closed under truncation to any width, so a value wrapped or "
+         "masked into a field collides with its in-range residue.")
